@@ -851,8 +851,10 @@ def replay_c(case):
 # ================================================================================================
 # (d) indentation scopes
 # ================================================================================================
-D_MSG = "ab\n\n<b>c\nd</b> e\n f"
-D_LINES = ["ab", "", "c", "d e", " f"]
+# lines are delimited by "\n" only: U+2028 / U+0085 (which str.splitlines also breaks at) are ordinary characters
+# inside a line
+D_MSG = "ab\n\n<b>c\nd</b> e\n f\ng\u2028h\x85i"
+D_LINES = ["ab", "", "c", "d e", " f", "g\u2028h\x85i"]
 TARGETS = ["io", "out", "err"]
 MODES = ["set", "inc"]
 
@@ -1187,7 +1189,7 @@ def replay_d(case):
 # (e) escaped angle brackets: '\\<' is the way to write '<' as a plain character in front of something
 #     that would otherwise be a tag.  Every rendering must show '<' and no backslash, also inside a style.
 # ================================================================================================
-E_ATOMS = [("a", "a"), (" ", " "), ("\\<b>", "<b>"), ("\\</b>", "</b>"), ("\\<info>", "<info>"), ("\\</>", "</>"),
+E_ATOMS = [("a", "a"), (" ", " "), ("\0", "\0"), ("\\<b>", "<b>"), ("\\</b>", "</b>"), ("\\<info>", "<info>"), ("\\</>", "</>"),
            ("\\<fg=red>", "<fg=red>"), ("\\<x", "<x"), ("\\< ", "< "), ("\\<nope>", "<nope>")]
 E_WRAPS = [("", ""), ("<info>", "</info>"), ("<b>", "</>"), ("<c1>", "</c1>"), ("<error>", "</error>"),
            ("<fg=red;options=bold>", "</>"), ("<foo>", "</foo>")]
